@@ -155,11 +155,73 @@ class C14:
             f["ts"] = (ts_end or ts_beg) if kind not in ("empty", "corrupt", "truncated") else os.path.getmtime(path)
             f["eff_ncmd"] = f["ncmd"] if kind in ("unlocked", "stale-locked", "live-locked") else 0
 
+    def run_live(self, case, rec):
+        """A live session (real JsonHistory object, its file locked) types history commands; other sessions come and go;
+        then a collection far over the limit runs: the live session's file must survive, with everything it had saved."""
+        import io as _io
+
+        import xonsh.history.main as HM
+
+        now = time.time()
+        self.write_collection([], now)
+        if "XONSH_HISTORY_FILE" in self.XSH.env:
+            del self.XSH.env["XONSH_HISTORY_FILE"]
+        h = self.J.JsonHistory(sessionid="live-%d" % case["n"], gc=False, buffersize=case["buffersize"], ts=[now, None], locked=True)  # as construct_history does
+        old_hist = self.XSH.history
+        self.XSH.history = h
+        saved = 0
+        try:
+            k = 0
+            for op in case["ops"]:
+                if op == "append":
+                    k += 1
+                    h.append({"inp": "live cmd %d" % k, "rtn": 0, "ts": [now + k, now + k + 0.5]})
+                elif op == "history-flush":
+                    with contextlib.redirect_stdout(_io.StringIO()), contextlib.redirect_stderr(_io.StringIO()):
+                        HM.history_main(["flush"])
+                elif op == "flush":
+                    hf = h.flush()
+                    if hf is not None:
+                        hf.join(30)
+                elif op == "history-info":
+                    with contextlib.redirect_stdout(_io.StringIO()), contextlib.redirect_stderr(_io.StringIO()):
+                        HM.history_main(["info"])
+            for t in list(h._queue) if hasattr(h, "_queue") else []:
+                t.join(30)
+            try:
+                saved = len(self.LJ.LazyJSON(h.filename).load()["cmds"])
+            except Exception:
+                saved = 0
+            # three other sessions start and end after that, each with a later closing time
+            HD = os.path.join(self.dd, "history_json")
+            for i in range(case["others"]):
+                t0 = now + 1000 + 10 * i
+                meta = {"cmds": [{"inp": "o%d" % i, "rtn": 0, "ts": [t0, t0 + 1]}], "sessionid": "o%02d" % i, "ts": [t0, t0 + 5], "locked": False}
+                with open(os.path.join(HD, "xonsh-o%02d.json" % i), "w", newline="\n") as fp:
+                    self.LJ.ljdump(meta, fp, sort_keys=True)
+            existed = os.path.exists(h.filename)
+            with contextlib.redirect_stdout(_io.StringIO()), warnings.catch_warnings():
+                warnings.simplefilter("ignore")
+                gc = self.J.JsonHistoryGC(wait_for_shell=False, size=(case["limit"], "files"), force=True)
+                gc.join(60)
+            rec.count("live_session_collections")
+            rec.case(nontrivial=("live", tuple(case["ops"]), case["others"], case["limit"]) if existed else None)
+            if not existed:
+                rec.count("live_session_had_no_file_yet")
+            elif not os.path.exists(h.filename):
+                rec.violation("LIVE-SESSION-FILE-DELETED/after-" + ("history-flush" if "history-flush" in case["ops"] else "flush" if "flush" in case["ops"] else "append"), case, {"saved_commands_lost": saved})
+            else:
+                rec.count("ok")
+        finally:
+            self.XSH.history = old_hist
+
     def run_case(self, case, rec):
         if not hasattr(self, "XSH"):
             self._setup()
         if case.get("backend") == "sqlite":
             return self.run_sqlite(case, rec)
+        if case.get("backend") == "live":
+            return self.run_live(case, rec)
         now = time.time()
         files = [dict(f) for f in case["files"]]
         unit, lim, force = case["unit"], case["limit"], case["force"]
@@ -406,6 +468,12 @@ class C14:
             if it < 2:
                 rec.sample(case, "json")
             self.run_case(case, rec)
+        # live sessions typing history commands before a collection that is far over the limit
+        for it in range(12 if sh.get("tier") == "quick" else 60):
+            ops = [rng.choice(["append", "append", "append", "history-flush", "flush", "history-info"]) for _ in range(rng.randint(2, 8))]
+            if it % 2 == 0:
+                ops = ["append", "append"] + ops + ["append", "history-flush"] + (["append"] if rng.random() < 0.5 else [])
+            self.run_case({"backend": "live", "n": it, "ops": ops, "others": rng.randint(2, 5), "limit": rng.choice([0, 1, 2]), "buffersize": rng.choice([1, 3, 100])}, rec)
         # directed: the boundary named in the property text
         for unit in UNITS:
             for force in (True, False):
